@@ -1,4 +1,5 @@
 import DoitModel.Proofs.C20
+import DoitModel.Proofs.C20Spec
 /-! # C20 — introspection commands are read-only and agree with run
 
 Property theorems only (models: `Model/Status.lean`, `Model/Intro.lean`; helpers: `Proofs/C20.lean`, `Proofs/Status*.lean`).
@@ -284,6 +285,30 @@ theorem C20_reasons_complete (c : Checker) (d : TaskDef) (r : Rcd) (fs : FS) (re
     (hnc : d.deps.any (depIs .crash c (logRcd c r) fs) = false) :
     (reasonsOf c d r fs resOf).isEmpty = true ↔ statusLog c d r fs resOf = .upToDate :=
   reasons_isEmpty_iff c d r fs resOf hnc
+
+/-- the `changed_file_dep` reason against the *ghost* state (never a record): after every prefix of every history within
+    the checker's premise, for a dependency that the last recorded successful execution already had (same checker),
+    `info` lists it as changed exactly when the file exists and is modified -- by the configured checker's rule --
+    relative to what that execution saw.  (A dependency the last execution did not have is reported under
+    `added_file_dep`; with another checker everything present is reported as changed, after `checker_changed`.) -/
+theorem C20_reasons_changed_is_true (h : List Op) (hf : Faithful h = true) (k : Nat) (t : Name) (e : Exec) :
+    let s := runHist true (h.take k)
+    s.shadow t = some e → e.checker = s.checker → ∀ p, p ∈ e.deps →
+      (p ∈ (infoReasons s t).changed ↔
+        p ∈ (s.defs t).deps ∧ (s.fs p).isSome = true ∧ depUnmod s.checker e s.fs p = false) := by
+  intro s he hck p hp
+  have hf' : Faithful (h.take k) = true := by
+    unfold Faithful at hf ⊢
+    rw [List.all_eq_true] at hf ⊢
+    intro o ho
+    exact hf o (List.mem_of_mem_take ho)
+  exact changed_iff_spec (hist_inv _ hf') t e he hck p hp
+
+/-- non-vacuity of the hypotheses: after `overwrittenHist` the last execution of task 0 is recorded with both
+    dependencies and the configured checker, and dependency 0 is listed as changed -/
+example : ∃ e, (runHist true overwrittenHist).shadow 0 = some e ∧ e.checker = (runHist true overwrittenHist).checker ∧
+    0 ∈ e.deps ∧ 0 ∈ (infoReasons (runHist true overwrittenHist) 0).changed :=
+  ⟨_, rfl, by decide, by decide, by decide⟩
 
 /-- non-vacuity: a reachable state with several reasons at once -/
 example : infoReasons (runHist true overwrittenHist) 0 =
